@@ -42,10 +42,14 @@ def _events(n, L):
 
 
 TWINS = [("1", "True"), ("1", "1.0"), ("0", "False"), ("0.0", "-0.0"), ("2", "2.0"), ("HCF('a', 0)", "HCF('a', 3)"), ("(1, 2)", "(True, 2.0)"),
-         ("Decimal('1.0')", "Decimal('1.00')"), ("NT2(1, 2)", "(1, 2)")]
+         ("Decimal('1.0')", "Decimal('1.00')"), ("NT2(1, 2)", "(1, 2)"),
+         # two values of one type, one with a repr that is code and one that needs HasRepr (not equal, but decided per value)
+         ("Flk(1)", "Flk(7)"), ("Flk(8)", "Flk(2)")]
 TWIN_WRAPS = ["X", "[X]", "{X}", "frozenset({X})", "{X: 0}", "{'k': X}", "(X, 5)", "[[X], {X}]"]
 TWIN_PRE = ("from dataclasses import dataclass, field\nfrom decimal import Decimal\nfrom collections import namedtuple\n\n\n"
-            "@dataclass(unsafe_hash=True)\nclass HCF:\n    name: str\n    n: int = field(default=0, compare=False)\n\n\nNT2 = namedtuple('NT2', 'a,b')\n\n\n")
+            "@dataclass(unsafe_hash=True)\nclass HCF:\n    name: str\n    n: int = field(default=0, compare=False)\n\n\nNT2 = namedtuple('NT2', 'a,b')\n\n\n"
+            "class Flk:\n    def __init__(self, n):\n        self.n = n\n    def __eq__(self, o):\n        return self.n == o.n if isinstance(o, Flk) else NotImplemented\n"
+            "    def __hash__(self):\n        return 1\n    def __repr__(self):\n        return 'Flk(%d)' % self.n if self.n < 5 else '<Flk %d>' % self.n\n\n\n")
 
 
 def _cases(tier):
@@ -86,6 +90,8 @@ def _cases(tier):
     # for one (a cached text, a shared table keyed by value) may show up in the other
     for a, b in TWINS:
         for wrap in TWIN_WRAPS:
+            if a.startswith("Flk") and ("{X" in wrap):
+                continue  # HasRepr(...) is not hashable: values that need it cannot be members of sets / keys of dicts
             for op in ("==", "in", "[k]"):
                 cases.append({"reeval": "twins", "a": a, "b": b, "wrap": wrap, "op": op})
                 cases.append({"reeval": "twins", "a": b, "b": a, "wrap": wrap, "op": op})
@@ -329,7 +335,7 @@ def _judge_twins(c):
         return [("test-raised", str(r["raised"])[:200])], ctx
     mod = types.ModuleType("c14_twins")
     sys.modules[mod.__name__] = mod
-    exec(compile(TWIN_PRE, "<twins>", "exec"), mod.__dict__)
+    exec(compile("from inline_snapshot import HasRepr\n" + TWIN_PRE, "<twins>", "exec"), mod.__dict__)
     calls = snapshot_calls(ctx["after"])
     for i, v in enumerate(vals):
         want = eval(v, mod.__dict__)
@@ -338,7 +344,10 @@ def _judge_twins(c):
             got = eval(calls[i]["arg_text"], mod.__dict__)
         except Exception as e:  # noqa
             return [("written-argument-not-evaluable", "%s: %s" % (calls[i]["arg_text"][:100], e))], ctx
-        if repr(got) != repr(want):
+        if "HasRepr(" in calls[i]["arg_text"]:
+            if not (got == want):
+                return [("value-of-another-call-site-written", "site %d observed %s, written snapshot(%s)" % (i, v, calls[i]["arg_text"].strip()[:100]))], ctx
+        elif repr(got) != repr(want):
             return [("value-of-another-call-site-written", "site %d observed %s, written snapshot(%s) = %r (the other site observed %s)" % (
                 i, v, calls[i]["arg_text"].strip()[:100], got, vals[1 - i]))], ctx
     return [None], ctx
